@@ -291,6 +291,12 @@ func exec(in string) string {
 	if len(f) >= 3 && f[0] == "B" {
 		return execBig(in)
 	}
+	if len(f) >= 1 && f[0] == "W" {
+		return execStore(in) // the cache on the harness's own Store (round5.go)
+	}
+	if len(f) >= 1 && f[0] == "L" {
+		return execLength(in) // other instantiations, cache.Length as the size function (round5.go)
+	}
 	if len(f) < 3 || f[0] != "H" {
 		return "?"
 	}
@@ -618,6 +624,9 @@ func main() {
 		"one long history (more than 2^12 uses) on a cache of a few hundred entries. "+
 		"Capacity history (round 4): a cache that held 1023, 1024, 1025 or 1500 entries (and a few smaller peaks), drained to exactly 0, 1 or 2 entries by Clear / by Removes in three orders / by one Put whose size equals the limit, "+
 		"then used again as a small cache (Gets of entries that are not the newest, Remove, replacing Put, ordered drain; what the drain left is the first victim); every count 0..130 in turn (n entries, one Put with exactly n victims, n entries, Clear). "+
+		"Round 5: W lines - the same kinds of histories (every history of up to 3 calls on two keys, random ones, a few on 41..300 entries) on cache.New(limit, Config.WithStore(s)) with s the harness's own list-based LRU Store "+
+		"(the Config put together in four orders, on top of LRU(), with a replaced decoy store, with and without OnEvict; New without a store must panic), observing the store's entries in recency order and what leaves it; "+
+		"L lines - Cache[K, V] for K in int, string, struct, float64, [2]int32, *int and V in string, []byte and named types of both, sized by cache.Length, values of v mod k bytes cut from multi-byte text. "+
 		"A case is non-trivial when it evicts or performs a Put/Get/Remove after a Remove; distinct = distinct input lines.",
 		exec, func(g *tr.G) {
 			if g.Prop == "C09" {
@@ -629,6 +638,8 @@ func main() {
 					}
 					emit(g, sh.limit, sh.mode, genHistory(g.R, sh))
 				}
+				// the Store the concurrent runs hand to the cache through Config.WithStore, sequentially (W lines)
+				genStore(g, true)
 				return
 			}
 			// exhaustive small scope
@@ -695,6 +706,10 @@ func main() {
 			// the boundary itself: two values of size 2^62-1... (63<<56 = 2^62 - 2^56; 127<<55 likewise)
 			emit(g, maxLim, "b55", []op{{kind: 'p', key: 0, val: 127}, {kind: 'p', key: 1, val: 127}, {kind: 's'}, {kind: 'p', key: 2, val: 1}, {kind: 's'}, {kind: 'l'}})
 			emit(g, maxLim, "b56", []op{{kind: 'p', key: 0, val: 63}, {kind: 'p', key: 1, val: 63}, {kind: 'p', key: 2, val: 63}, {kind: 's'}, {kind: 'g', key: 1}, {kind: 'p', key: 3, val: 62}, {kind: 's'}})
+			// round 5: Config.WithStore with the harness's own Store (W lines); other instantiations of Cache[Key, Value]
+			// with cache.Length as the size function (L lines)
+			genStore(g, false)
+			genLength(g)
 			// big caches: 2^k-1, 2^k, 2^k+1 entries (B lines, scale.go)
 			genScale(g)
 		})
